@@ -1,6 +1,8 @@
 import Abyss.Props.C05
 import Abyss.Props.C01Gen
 import Abyss.Props.GenCorollaries
+import Abyss.Props.GenBudget
+#print axioms Abyss.C05_generated_structure_budget
 #print axioms Abyss.C05_generated_structure
 #print axioms Abyss.C05_reachable
 #print axioms Abyss.C05_structure
